@@ -160,6 +160,14 @@ var reDepth = regexp.MustCompile(`depth of the complete state graph search is (\
 var reSim = regexp.MustCompile(`(\d+) states checked`)
 var reOutdeg = regexp.MustCompile(`the maximum (\d+)`)
 
+// runTLCRaw runs TLC without turning a TLC error into an infrastructure problem (trace validation interprets it).
+func (c *Ctx) runTLCRaw(j TLCJob) TLCResult {
+	n := len(c.Infra)
+	r := c.runTLC(j)
+	c.Infra = c.Infra[:n]
+	return r
+}
+
 func (c *Ctx) runTLC(j TLCJob) TLCResult {
 	t0 := time.Now()
 	dir := filepath.Join(c.Work, "tlc_"+strings.TrimSuffix(filepath.Base(j.Cfg), ".cfg"))
@@ -381,7 +389,7 @@ func main() {
 		defer os.RemoveAll(work)
 		p := &Pool{N: 1, WorkDir: work}
 		cs := make(chan *Case, 1)
-		cs <- &Case{ID: 1, Mode: "run", Src: string(b), Stdin: in, WantT: false}
+		cs <- &Case{ID: 1, Mode: "run", Src: string(b), Stdin: in, WantT: false, Trace: os.Getenv("VERIF_TRACE") != ""}
 		close(cs)
 		p.Run(cs, func(c *Case, r *Result) {
 			j, _ := json.MarshalIndent(r, "", " ")
@@ -421,7 +429,9 @@ func main() {
 	}
 	work := filepath.Join(verifRoot, ".work", fmt.Sprintf("%s_%d", prop, os.Getpid()))
 	os.MkdirAll(work, 0755)
-	defer os.RemoveAll(work)
+	if os.Getenv("VERIF_KEEP") == "" {
+		defer os.RemoveAll(work)
+	}
 	c := &Ctx{Prop: prop, Tier: tier, Seed: seed, Work: work, Start: time.Now(), Known: loadKnown()}
 	c.Ev = Evidence{PropertyID: prop, Tier: tier, Seed: seed, Level: "model_checking", Assumptions: []string{}, Coverage: map[string]interface{}{
 		"states": int64(0), "transitions": int64(0), "traces_validated_against_impl": int64(0), "samples": []interface{}{}}}
@@ -447,7 +457,9 @@ func main() {
 		fn(c)
 	}()
 	code = c.finish(replay != "")
-	os.RemoveAll(work)
+	if os.Getenv("VERIF_KEEP") == "" {
+		os.RemoveAll(work)
+	}
 	os.Exit(code)
 }
 
